@@ -117,6 +117,7 @@ pub fn pre_exp(e: &PreExp, source: &str) -> String {
             Primitive::Boolean(b) => format!("(bool {})", b),
             Primitive::String(s) => format!("(str {})", sx::q(s)),
             Primitive::Iterable(it) => format!("(prim {})", sx::q(&it.to_string())),
+            Primitive::Graph(g) => format!("(prim {})", sx::q(&graph_lex_text(g, p.span_text(source).unwrap_or("")))),
             other => format!("(other {})", sx::q(&format!("{:?}", other))),
         },
         PreExp::Variable(n) => format!("(var {})", sx::q(n.value())),
@@ -128,6 +129,32 @@ pub fn pre_exp(e: &PreExp, source: &str) -> String {
         PreExp::BlockFunction(b) => list("block", &b.kind.to_string(), &b.exps),
         PreExp::BlockScopedFunction(b) => format!("(scoped {} {} {})", sx::q(&b.kind.to_string()), iters_lex(&b.iters, source), pre_exp(&b.exp, source)),
     }
+}
+/// the display of a graph literal (twin of `graphText` of the parser model) with every edge cost by its LEXEME in the
+/// source text of the literal (the costs are the `: signed_number` of that text, in order)
+pub fn graph_lex_text(g: &rooc::Graph, span: &str) -> String {
+    let cs: Vec<char> = span.chars().collect();
+    let mut lexemes: Vec<String> = vec![];
+    let mut i = 0;
+    while i < cs.len() {
+        if cs[i] == ':' {
+            let mut j = i + 1; while j < cs.len() && (cs[j] == ' ' || cs[j] == '\t') { j += 1; }
+            let st = j;
+            if j < cs.len() && cs[j] == '-' { j += 1; }
+            while j < cs.len() && (cs[j].is_ascii_digit() || cs[j] == '.') { j += 1; }
+            lexemes.push(cs[st..j].iter().collect());
+            i = j;
+        } else { i += 1; }
+    }
+    let mut next = lexemes.into_iter();
+    let nodes: Vec<String> = g.nodes().iter().map(|n| {
+        let edges: Vec<String> = n.clone().to_edges().iter().map(|e| match e.weight {
+            Some(_) => format!("{}:{}", e.to, next.next().unwrap_or_else(|| "?".into())),
+            None => e.to.clone(),
+        }).collect();
+        if edges.is_empty() { n.name().clone() } else { format!("{} -> [ {} ]", n.name(), edges.join(", ")) }
+    }).collect();
+    if nodes.is_empty() { "Graph { }".to_string() } else { format!("Graph {{\n{}\n}}", nodes.iter().map(|n| format!("    {}", n)).collect::<Vec<_>>().join(",\n")) }
 }
 pub fn iters_lex(its: &[IterableSet], source: &str) -> String {
     let mut s = String::from("(its");
@@ -416,6 +443,7 @@ pub fn lex_supported(src: &str) -> bool {
     let mut i = 0;
     let mut prev_word = false;
     let mut last_word_graph = false;
+    let mut brack_depth = 0usize;
     while i < cs.len() {
         let c = cs[i];
         let rest = &cs[i + 1..];
@@ -423,8 +451,28 @@ pub fn lex_supported(src: &str) -> bool {
         if c == ' ' || c == '\t' { i += 1; now_graph = last_word_graph; }
         else if c == '\n' { i += 1; prev_word = false; }
         else if c == '\r' { i += if rest.first() == Some(&'\n') { 2 } else { 1 }; prev_word = false; }
-        else if c == ':' || c == '=' || c == '(' || c == ')' || c == ',' || c == '+' || c == '*' || c == '!' || c == '[' || c == ']' { i += 1; prev_word = false; }
-        else if c == '{' { if last_word_graph { return false; } i += 1; prev_word = false; }
+        else if c == ':' || c == '=' || c == '(' || c == ')' || c == ',' || c == '+' || c == '*' || c == '!' || c == '[' || c == ']' {
+            if c == '[' { brack_depth += 1; } else if c == ']' && brack_depth > 0 { brack_depth -= 1; }
+            i += 1; prev_word = false;
+        }
+        else if c == '{' {
+            if last_word_graph {
+                // a graph literal: modelled unless it sits in an array, carries a comment, or writes a cost as `- 2`
+                // (`signed_number` is atomic: the PEG refuses the blank, the token-level model cannot see it)
+                if brack_depth > 0 { return false; }
+                let end = cs[i..].iter().position(|&x| x == '}').map(|k| i + k).unwrap_or(cs.len());
+                let region: String = cs[i..end].iter().collect();
+                if region.contains('/') { return false; }
+                let rc: Vec<char> = region.chars().collect();
+                for (k, &x) in rc.iter().enumerate() {
+                    if x == ':' {
+                        let mut j = k + 1; while j < rc.len() && (rc[j] == ' ' || rc[j] == '\t') { j += 1; }
+                        if rc.get(j) == Some(&'-') && !rc.get(j + 1).map(|d| d.is_ascii_digit()).unwrap_or(false) { return false; }
+                    }
+                }
+            }
+            i += 1; prev_word = false;
+        }
         else if c == '>' { i += if rest.first() == Some(&'=') { 2 } else { 1 }; prev_word = false; }
         else if c == '/' {
             if rest.first() == Some(&'/') { while i < cs.len() && cs[i] != '\n' { i += 1; } now_graph = last_word_graph; }
@@ -493,6 +541,17 @@ pub fn lex_supported(src: &str) -> bool {
             let mut j = i + 1; while j < cs.len() && cs[j] != '"' && cs[j] != '\\' { j += 1; }
             if j < cs.len() && cs[j] == '"' { i = j + 1; prev_word = false; } else { return false; }
         }
+        else if c == '\\' {
+            // twin of the `escaped_compound_variable` branch of the lexer model (`isEscapedRun`, `escapedFollowBad`)
+            let mut j = i + 1; while j < cs.len() && is_word_char(cs[j]) { j += 1; }
+            let run = &cs[i + 1..j];
+            if !escaped_run(run) { return false; }
+            let mut k = j; while k < cs.len() && (cs[k] == ' ' || cs[k] == '\t') { k += 1; }
+            if cs.get(k) == Some(&'[') { return false; }
+            let last_digits = run.split(|&x| x == '_').last().map(|x| x.iter().all(|c| c.is_ascii_digit())).unwrap_or(false);
+            if last_digits && j + 1 < cs.len() && cs[j] == '.' && cs[j + 1].is_ascii_digit() { return false; }
+            i = j; prev_word = true;
+        }
         else { return false; }
         last_word_graph = now_graph;
     }
@@ -523,6 +582,12 @@ pub fn has_glued_keyword(src: &str) -> bool {
 // `parse-program` with `in-fragment` / `out-of-fragment`, so a twin that drifts shows up as a correspondence mismatch.
 const KEYWORDS: [&str; 18] = ["for", "min", "max", "where", "true", "false", "in", "as", "define", "let", "solve", "and", "or", "not", "implies", "iff", "xor", "_"];
 fn plain_run_s(s: &str) -> bool { let cs: Vec<char> = s.chars().collect(); is_plain_run(&cs) }
+fn escaped_run(run: &[char]) -> bool {
+    let segs: Vec<&[char]> = run.split(|&x| x == '_').collect();
+    segs.len() >= 2 && is_plain_run(segs[0]) && segs[1..].iter().all(|x| !x.is_empty() && (x.iter().all(|c| c.is_ascii_digit()) || is_plain_run(x)))
+}
+fn escaped_var(s: &str) -> bool { let cs: Vec<char> = s.chars().collect(); escaped_run(&cs) && !KEYWORDS.contains(&s) }
+fn name_var(s: &str) -> bool { plain_var(s) || escaped_var(s) }
 fn plain_var(s: &str) -> bool { plain_run_s(s) && !KEYWORDS.contains(&s) }
 fn float_text(s: &str) -> bool {
     let mut p = s.splitn(2, '.');
@@ -544,7 +609,7 @@ pub fn core_exp(e: &PreExp, lexeme: bool) -> bool {
             Primitive::Iterable(rooc::IterableKind::Anys(v)) => v.is_empty(),
             _ => false,
         },
-        PreExp::Variable(n) => plain_var(n.value()),
+        PreExp::Variable(n) => name_var(n.value()),
         PreExp::CompoundVariable(c) => plain_run_s(&c.name) && !c.indexes.is_empty() && core_idx(&c.indexes, lexeme),
         PreExp::ArrayAccess(a) => plain_run_s(&a.name) && a.name != "not" && !a.accesses.is_empty() && a.accesses.iter().all(|x| core_exp(x, lexeme)),
         PreExp::FunctionCall(_, f) => f.name != "not" && !f.name.is_empty() && f.name.chars().all(is_letter) && f.args.iter().all(|x| core_exp(x, lexeme)),
@@ -570,7 +635,7 @@ fn core_idx(idx: &[PreExp], lexeme: bool) -> bool {
             let bare = s.starts_with('_') && !rest.is_empty() && rest.chars().all(|c| is_letter(c) || c.is_ascii_digit());
             !bare && core_exp(e, lexeme)
         }
-        PreExp::Variable(n) => plain_run_s(n.value()),
+        PreExp::Variable(n) => plain_run_s(n.value()) || escaped_var(n.value()),
         other => core_exp(other, lexeme),
     })
 }
@@ -589,7 +654,7 @@ fn core_for(its: &[IterableSet], lexeme: bool) -> bool {
 }
 fn core_name(v: &Variable, lexeme: bool) -> bool {
     match v {
-        Variable::Variable(n) => plain_var(n),
+        Variable::Variable(n) => name_var(n),
         Variable::CompoundVariable(c) => plain_run_s(&c.name) && !c.indexes.is_empty() && core_idx(&c.indexes, lexeme),
     }
 }
